@@ -507,7 +507,14 @@ func (r *Roles) helperHandled(p *an.Prog, b *Boundary) {
 			return
 		}
 		h := c.Call.StaticCallee()
-		if h == nil || h.Blocks == nil || !p.InModule(h) || h.Signature.Results().Len() != 1 {
+		if h == nil || h.Blocks == nil || !p.InModule(h) {
+			return
+		}
+		if h.Signature.Results().Len() == 2 {
+			r.helperHandledOK(p, b, c, h, rec)
+			return
+		}
+		if h.Signature.Results().Len() != 1 {
 			return
 		}
 		argIdx := -1
@@ -745,4 +752,81 @@ func tableRows(nameArg, fnArg ssa.Value) []tableRow {
 		out = append(out, *row)
 	}
 	return out
+}
+
+// helperHandledOK: the classifier shape `err, ok := classify(r); if !ok { panic(r) }; result = err`: the
+// helper answers (error, true) for the types it recognises and (nil, false) for the rest; the boundary
+// re-panics exactly when ok is false.
+func (r *Roles) helperHandledOK(p *an.Prog, b *Boundary, c *ssa.Call, h *ssa.Function, rec ssa.Value) {
+	if !isBoolType(h.Signature.Results().At(1).Type()) {
+		return
+	}
+	argIdx := -1
+	for i, a := range c.Call.Args {
+		if an.Reaches(a, an.StepValue, func(v ssa.Value) bool { return v == rec }) {
+			argIdx = i
+		}
+	}
+	if argIdx < 0 || argIdx >= len(h.Params) || c.Referrers() == nil {
+		return
+	}
+	// the ok result decides: its true side does not panic
+	decided := false
+	for _, u := range *c.Referrers() {
+		ex, ok := u.(*ssa.Extract)
+		if !ok || ex.Index != 1 || ex.Referrers() == nil {
+			continue
+		}
+		for _, uu := range *ex.Referrers() {
+			if ifi, ok := uu.(*ssa.If); ok && !reachesPanic(ifi.Block().Succs[0]) {
+				decided = true
+			}
+			if un, ok := uu.(*ssa.UnOp); ok && un.Op == token.NOT && un.Referrers() != nil {
+				for _, u3 := range *un.Referrers() {
+					if ifi, ok := u3.(*ssa.If); ok && !reachesPanic(ifi.Block().Succs[1]) {
+						decided = true
+					}
+				}
+			}
+		}
+	}
+	if !decided {
+		return
+	}
+	par := h.Params[argIdx]
+	// type-switch arms (comma-ok assertions of the parameter) on whose ok side every return answers true
+	an.EachInstr(h, func(in ssa.Instruction) {
+		ta, ok := in.(*ssa.TypeAssert)
+		if !ok || !ta.CommaOk || ta.X != ssa.Value(par) || ta.Referrers() == nil {
+			return
+		}
+		for _, u := range *ta.Referrers() {
+			ex, ok := u.(*ssa.Extract)
+			if !ok || ex.Index != 1 || ex.Referrers() == nil {
+				continue
+			}
+			for _, uu := range *ex.Referrers() {
+				ifi, ok := uu.(*ssa.If)
+				if !ok {
+					continue
+				}
+				okSide := ifi.Block().Succs[0]
+				good, n := true, 0
+				an.EachInstr(h, func(in2 ssa.Instruction) {
+					ret, isRet := in2.(*ssa.Return)
+					if !isRet || !okSide.Dominates(ret.Block()) {
+						return
+					}
+					n++
+					res := resultsOf(ret)
+					if cb, isC := an.ConstBool(res[1]); !isC || !cb {
+						good = false
+					}
+				})
+				if good && n > 0 {
+					b.Handled = append(b.Handled, ta.AssertedType)
+				}
+			}
+		}
+	})
 }
